@@ -2,6 +2,7 @@ package props
 
 import (
 	"fmt"
+	"gorgonia.org/tensor"
 	"math"
 
 	"verif/harness/mon"
@@ -25,10 +26,10 @@ type CmpMode int
 
 // Comparison modes.
 const (
-	CmpBits CmpMode = iota // every bit pattern equal
-	CmpIEEE                // floats: NaN == NaN, +0 == -0; everything else exact
-	CmpTol                 // floats within Approx.Tol; special values by class
-	CmpSigned              // floats: NaN == NaN (any payload), everything else bit-exact: +0 and -0 differ
+	CmpBits   CmpMode = iota // every bit pattern equal
+	CmpIEEE                  // floats: NaN == NaN, +0 == -0; everything else exact
+	CmpTol                   // floats within Approx.Tol; special values by class
+	CmpSigned                // floats: NaN == NaN (any payload), everything else bit-exact: +0 and -0 differ
 )
 
 // Expect is the expectation for one request.
@@ -156,6 +157,9 @@ type KnownMatcher func(req mon.OpReq, exp Expect, o mon.Outcome, v Verdict) stri
 // no violation was found.
 func CheckOp(c *Ctx, req mon.OpReq, exp Expect, viaModel bool, mo mon.ModelOpts, known KnownMatcher) bool {
 	ok := true
+	if mo.IR == 0 && c.Idx%3 == 0 {
+		mo.IR = []int64{1, 3, 4, 6, 8, 9, 10, -1}[(c.Idx/3)%8]
+	}
 	o, muts := mon.RunOpAPI(req)
 	c.Eval(1)
 	c.Count(fmt.Sprintf("outcome:%s/%s", exp.Kind, o.Kind), 1)
@@ -207,6 +211,33 @@ func CheckOp(c *Ctx, req mon.OpReq, exp Expect, viaModel bool, mo mon.ModelOpts,
 		if v := Judge(exp, os); !v.OK {
 			ok = false
 			report(c, "api, attribute list in another order", shuffled, exp, os, v, known)
+		}
+	}
+	if c.Idx%64 == 2 && ok {
+		// what an operator's introspection returns belongs to the caller: the entries of the
+		// constraint list of ONE instance are replaced, then the request runs on a fresh one
+		if probe, err := getOp(req.Op); err == nil {
+			cons := probe.GetInputTypeConstraints()
+			for i := range cons {
+				cons[i] = []tensor.Dtype{tensor.Complex128}
+			}
+			oc, _ := mon.RunOpAPI(req)
+			c.Eval(1)
+			c.Count("calls-after-scribbled-type-constraints", 1)
+			if v := Judge(exp, oc); !v.OK {
+				ok = false
+				report(c, "api, after the caller replaced the entries of the constraint list another instance had returned", req, exp, oc, v, known)
+			}
+		}
+	}
+	if c.Idx%8 == 6 && ok {
+		// the input list as a prefix of a longer array with other tensors behind its length
+		osp := mon.RunOpAPISpare(req)
+		c.Eval(1)
+		c.Count("spare-capacity-list-calls", 1)
+		if v := Judge(exp, osp); !v.OK {
+			ok = false
+			report(c, "api, input list with spare capacity holding other tensors", req, exp, osp, v, known)
 		}
 	}
 	if c.Idx%8 == 5 && ok {
